@@ -15,7 +15,7 @@ SCOPE = ('short histories (2-3 steps of the full chain on the objects the earlie
          'transition function and the shipped chains, over lazily symbolic grids: the verdict covers every content '
          'of the cells the code did not read')
 BOUNDS = {
-    'quick': dict(shapes='all HxW with 1<=H,W<=3 (scanning functions move_obstacles/teleport: H*W<=4, 3-object alphabets, empty hand)', alphabet='all object kinds and door statuses, 2 colours (33 objects)',
+    'quick': dict(long_grids='2x40 all-Floor grid, two unrelated move attempts one after the other, every pair of positions, 4 headings x 2 actions (thorough: 40x2, 3x70, 4 actions)', shapes='all HxW with 1<=H,W<=3 (scanning functions move_obstacles/teleport: H*W<=4, 3-object alphabets, empty hand)', alphabet='all object kinds and door statuses, 2 colours (33 objects)',
                   poses='every cell x 4 headings (edges facing outward included)', actions='all 8', held='none or any object of the alphabet',
                   draws='every outcome of every rng draw (move_obstacles, teleport)'),
     'thorough': dict(shapes='all HxW with 1<=H,W<=4 plus 5x5', alphabet='full alphabet, 5 colours (41 objects)',
